@@ -486,6 +486,35 @@ def calls(rng, env, version):
     out.append(('create_key_pair_args', lambda c: c.create_key_pair(CA.RSA, k_len, public_name=k_pub, private_name=k_priv,
                                                                     public_usage_mask=k_pm, private_usage_mask=k_vm),
                 lambda res, p: None if tuple(res) == (first(p, 0x42006F), first(p, 0x420066)) else 'returned %r' % (res,), None, pair_req))
+    # register: the object handed to the client is the object in the request, field by field - values at the edges of what
+    # the encodings hold (big integers whose bit length is a multiple of 8 / 64, empty and block-sized byte strings)
+    r_val = bytes(rng.getrandbits(8) for _ in range(rng.choice((8, 16, 24, 32, 33))))
+    r_prime = rng.choice((2 ** 64 - 59, 2 ** 63 - 25, 2 ** 128 - 159, 2 ** 127 - 1, 2 ** 256 - 189, 2 ** 255 - 19, 104729, 255, 256, 2 ** 32 - 5, 2 ** 192 - 237))
+    r_kind = rng.choice(('split', 'split', 'sym', 'secret', 'opaque'))
+    if r_kind == 'split':
+        r_obj = pobjects.SplitKey(CA.AES, len(r_val) * 8, r_val, name='c19-rsplit-%d' % rng.randrange(10 ** 6), split_key_parts=rng.choice((3, 255)),
+                                  key_part_identifier=rng.choice((1, 3)), split_key_threshold=rng.choice((2, 3)),
+                                  split_key_method=E.SplitKeyMethod.POLYNOMIAL_SHARING_PRIME_FIELD, prime_field_size=r_prime)
+    elif r_kind == 'sym':
+        r_obj = pobjects.SymmetricKey(CA.AES, len(r_val) * 8 if len(r_val) in (16, 24, 32) else 128,
+                                      r_val if len(r_val) in (16, 24, 32) else r_val[:16].ljust(16, b'k'), name='c19-rsym-%d' % rng.randrange(10 ** 6))
+    elif r_kind == 'secret':
+        r_obj = pobjects.SecretData(r_val, E.SecretDataType.PASSWORD, name='c19-rsec-%d' % rng.randrange(10 ** 6))
+    else:
+        r_obj = pobjects.OpaqueObject(r_val, E.OpaqueDataType.NONE, name='c19-ropq-%d' % rng.randrange(10 ** 6))
+
+    def register_req(req):
+        p_ = req_payload(req)
+        mat = [it[2] for _, it in T.walk(p_) if it[0] in (0x420043, 0x42005A) and it[1] == T.BYTES]
+        if mat != [r_obj.value]:
+            return 'request carries the value(s) %r for an object holding %r' % (mat, r_obj.value)
+        if r_kind == 'split':
+            got = tuple(first(p_, t_) for t_ in (0x42008B, 0x420044, 0x42008C, 0x42008A, 0x420062))
+            want = (r_obj.split_key_parts, r_obj.key_part_identifier, r_obj.split_key_threshold, r_obj.split_key_method.value, r_obj.prime_field_size)
+            if got != want:
+                return 'request carries (parts, part identifier, threshold, method, prime field size) = %r for a split key holding %r' % (got, want)
+        return None
+    out.append(('register_args', lambda c: c.register(r_obj), uid_is, None, register_req))
     # KMIPProxy-level operations return result objects instead of raising
     qf = rng.sample(list(E.QueryFunction)[:6], rng.randrange(1, 4))
     out.append(('proxy.query', lambda c: c.proxy.query(query_functions=[QueryFunctionPrim(f) for f in qf]),
